@@ -32,6 +32,8 @@ def jobs(tier):
         dict(name="luid:unbounded", fn="luid", params={}, budget_s=300, group="luid", expect_outcomes=["accept", "reject"]),
         dict(name=f"curie:len<={L}", fn="curie", params=dict(maxlen=L), budget_s=3000 if tier == "thorough" else 600,
              group="curie", expect_outcomes=["accept", "reject"]),
+        dict(name="curie:len<=4:after-another-call", fn="curie", params=dict(maxlen=4, after=True), budget_s=600, group="curie",
+             expect_outcomes=["accept", "reject"]),
     ] + ([dict(name="curie:len<=4", fn="curie", params=dict(maxlen=4), budget_s=600, group="curie", expect_outcomes=["accept", "reject"])]
          if tier == "thorough" else [])
 
@@ -62,6 +64,11 @@ def build(job):
         if params.get("maxlen"):
             eng.assume(z3.Length(_s(s)) <= params["maxlen"])
         f = dict(prefix=w3c.is_w3c_prefix, luid=w3c._is_w3c_luid, curie=w3c.is_w3c_curie)[fn]
+        if params.get("after"):
+            # the functions have been asked about another string before (the answers must not depend on earlier calls)
+            w = eng.var("w")
+            eng.assume(z3.Length(_s(w)) <= params["maxlen"])
+            w3c.is_w3c_curie(w), w3c.is_w3c_prefix(w), w3c._is_w3c_luid(w)
         got = f(s)
         want = z3.InRe(_s(s), spec()[fn])
         if got:
